@@ -2,6 +2,10 @@
    The token-stream filters (keyword_case, identifier_case, truncate_strings): Filters/TokFiltersFacts.v;
    strip_comments: Props/C08_sc.v (re-exported).  Re-lexing ("no two tokens are fused or split"):
    ASCII letter case never changes token boundaries or types (Inst/CaseInv.v). *)
+(* source pins: the functions of /repo the hand-written models in this file's cone mirror have the normalised AST they
+   were written from (tools/regen/gen_srcpins.py; a changed function breaks its Gen/Pin_*.v and this file with it) *)
+From SqlModel.Gen Require Pin_filters_tokens Pin_filters_stripcomments Pin_filters_serializer Pin_filters_others_module Pin_api_glue Pin_formatter_module Pin_sql_tree.
+From SqlModel.Inst Require PassTabOk.   (* the grouping tables and driver pins of Group/Passes.v equal the ones regenerated from the source *)
 From SqlModel.Gen Require LexPins.   (* the scan loop, is_keyword, consume and the class-level state of sqlparse/lexer.py have the pinned shape *)
 From SqlModel Require Import Base PyStr Re Lexer TokFilters TokFiltersCur TokFiltersFacts CaseDefs.
 From SqlModel.Gen Require Import CaseTabs.
